@@ -451,3 +451,46 @@ func H_C01_map_values() {
 		vAssert("uint16-value", has && e == uint16(x))
 	}
 }
+
+type ZCelsius float64
+type ZID int64
+type ZName string
+type ZFlag bool
+type ZSmall uint8
+
+type ZNamedScalars struct {
+	C ZCelsius
+	I ZID
+	N ZName
+	F ZFlag
+	S ZSmall
+	L []ZID
+}
+
+// H_C01_named_scalars: values of named scalar types are carried like their underlying kind.
+func H_C01_named_scalars() {
+	v := &ZNamedScalars{C: 36.6, I: 1 << 40, N: "nm", F: true, S: 200, L: []ZID{1, 2}}
+	switch vChoice("field", 6) {
+	case 0:
+		v.C = ZCelsius(vFloat64("c"))
+	case 1:
+		v.I = ZID(vInt64("i"))
+	case 2:
+		v.N = ZName(vText("n", 2))
+	case 3:
+		v.F = ZFlag(vBool("f"))
+	case 4:
+		v.S = ZSmall(vUint8("s"))
+	case 5:
+		v.L[1] = ZID(vInt64("l"))
+	}
+	typMap, nameMap := vExtract(v)
+	bs, err := ToBytes(v, nameMap)
+	vAssert("encode-noerr", err == nil)
+	out, err := ToObject(bs, typMap)
+	vAssert("decode-noerr", err == nil)
+	g, ok := out.(*ZNamedScalars)
+	vAssert("type", ok && len(g.L) == 2)
+	same := vAnd(eqF64(float64(g.C), float64(v.C)), vAnd(g.I == v.I, vAnd(g.N == v.N, vAnd(g.F == v.F, g.S == v.S))))
+	vAssert("equal", vAnd(same, vAnd(g.L[0] == v.L[0], g.L[1] == v.L[1])))
+}
